@@ -34,7 +34,9 @@ RULE = (
 )
 ASSUMPTIONS = [
     "process death (os._exit), not power loss: data handed to the OS is "
-    "assumed to reach the file",
+    "assumed to reach the file; data still in the user-space buffer of the "
+    "open file object (modelled as the last <= 4 KiB written, the capacity "
+    "of a BufferedWriter being 8 KiB) is lost",
     "crash points are operation boundaries of safe_file_dump / save_weights "
     "plus sampled byte prefixes; a partial weights file is the prefix of "
     "the bytes torch.save produces",
@@ -66,6 +68,14 @@ def scenarios(seed):
             for when in ("first", "late"):
                 out.append({"name": f"{name}/{scope}/{when}", "cfg": cfg,
                             "scope": scope, "when": when})
+    # a serialised state of several pickle frames (> 64 KB): the stream
+    # reaches the file in several writes and its tail sits in the writer's
+    # buffer until the file is closed
+    big = {"model": std["model"], "ins": False,
+           "kwargs": dict(std["kwargs"], nlive=150, seed=800 + seed,
+                          checkpoint_interval=300, stopping=0.1)}
+    out.append({"name": "standard-large/checkpoint/late", "cfg": big,
+                "scope": "checkpoint", "when": "late"})
     return out
 
 
@@ -237,9 +247,9 @@ def run(ctx):
                 plan.append((sc, {"prefix": 0,
                                   "second": {"at": 1, "op": 2}}))
     out.stats.extra["crash_points_enumerated"] = len(plan)
-    if ctx.quick and len(plan) > 64:
+    if ctx.quick and len(plan) > 92:
         # seeded stratified subset: every scenario keeps its op boundaries
-        # round-robin until 64 cases
+        # round-robin until 92 cases
         import random
 
         rng = random.Random(ctx.seed)
@@ -248,13 +258,21 @@ def run(ctx):
             bysc.setdefault(sc["name"], []).append((sc, pt))
         for v in bysc.values():
             rng.shuffle(v)
-        keep = [(sc, pt) for sc, pt in plan if pt.get("second")]
+        # always kept: the double faults and, for every scenario, the end of
+        # its operation sequence (before the last two operations and after
+        # the last one: the window in which the new file replaces the old)
+        def tail(sc, pt):
+            return "op" in pt and pt["op"] >= len(sc["ops"]) - 2
+
+        keep = [(sc, pt) for sc, pt in plan
+                if pt.get("second") or tail(sc, pt)]
         for k in bysc:
-            bysc[k] = [x for x in bysc[k] if not x[1].get("second")]
+            bysc[k] = [x for x in bysc[k]
+                       if not x[1].get("second") and not tail(*x)]
         plan = list(keep)
-        while len(plan) < 64 and any(bysc.values()):
+        while len(plan) < 92 and any(bysc.values()):
             for k in sorted(bysc):
-                if bysc[k] and len(plan) < 64:
+                if bysc[k] and len(plan) < 92:
                     plan.append(bysc[k].pop())
     out.stats.extra["exhaustive"] = False
     res = runs.run_histories("c11", [make_history(sc, pt) for sc, pt in plan])
